@@ -235,7 +235,13 @@ theorem manyLoop_filter (gd : Bool) (policy : Option Int) (filter : List Nat) (h
                 intro x hx
                 exact hacc' x (List.mem_reverse.mp hx)
               · exact ih _ _ _ _ _ hacc' h
-          · simp at h
+          · split at h
+            · injection h with _ h2
+              injection h2 with h2
+              subst h2
+              intro x hx
+              exact hacc x (List.mem_reverse.mp hx)
+            · simp at h
           · exact ih _ _ _ _ _ hacc h
 
 /-! ## the observation checker of C03 -/
